@@ -10,11 +10,23 @@ package table
 //@ def complete(r *Row, t *Table) bool := r != nil && len(r.cells) == len(t.columns)
 //@ def isCell(c cell) bool := typeIs(c, "emptyCell") || typeIs(c, "SeparatorCell") || typeIs(c, "textCell") || typeIs(c, "numberCell") || typeIs(c, "percentCell")
 //
+// New: the table has one column per unit of every group size (ghost sums[j] = groups[0] + ... + groups[j-1]).
 //@ func New
 //@   requires forall g int :: {groups[g]} 0 <= g && g < len(groups) ==> groups[g] >= 0
+//@   ghost sums []int = 0
+//@   loop 1 ghost-end sums := upd(sums, $i, sums[$i - 1] + groups[$i - 1])
 //@   ensures fresh(result) && result.rows == nil && fresh(result.columns)
-//@   loop 1 invariant fresh(columns)
-//@   loop 2 invariant fresh(columns) && 0 <= i
+//@   ensures @width2: len(groups) == 2 ==> len(result.columns) == groups[0] + groups[1]
+//@   ensures @width3: len(groups) == 3 ==> len(result.columns) == groups[0] + groups[1] + groups[2]
+//@   loop 1 invariant fresh(columns) && 0 <= $i && $i <= len(groups) && sums[0] == 0 && len(columns) == sums[$i]
+//@   loop 1 invariant forall j int :: {groups[j]} 0 <= j && j < $i ==> sums[j+1] == sums[j] + groups[j]
+//@   loop 1 invariant forall g int :: {groups[g]} 0 <= g && g < len(groups) ==> groups[g] >= 0 && groups[g] == old(groups[g])
+//@   loop 2 invariant fresh(columns) && 0 <= i && sums[0] == 0
+//@   loop 2 invariant i <= groupSize || groupSize < 0
+//@   loop 2 invariant len(columns) == sums[$i1] + i
+//@   loop 2 invariant 0 <= $i1 && $i1 < len(groups) && groupSize == groups[$i1] && groupSize >= 0
+//@   loop 2 invariant forall g int :: {groups[g]} 0 <= g && g < len(groups) ==> groups[g] >= 0 && groups[g] == old(groups[g])
+//@   loop 2 invariant forall j int :: {groups[j]} 0 <= j && j < $i1 ==> sums[j+1] == sums[j] + groups[j]
 //@   loop 2 decreases groupSize - i
 //
 //@ func (*Table).Width
@@ -22,7 +34,7 @@ package table
 //
 //@ func (*Table).AddRow
 //@   modifies t.rows, t.rows[*]
-//@   ensures fresh(result) && rowOf(result, t) && len(result.cells) == 0 && fresh(result.cells)
+//@   ensures fresh(result) && live(result) && rowOf(result, t) && len(result.cells) == 0 && fresh(result.cells)
 //@   ensures len(t.rows) == old(len(t.rows)) + 1 && t.rows[len(t.rows) - 1] == result && t.columns == old(t.columns)
 //@   ensures forall i int :: {t.rows[i]} 0 <= i && i < old(len(t.rows)) ==> t.rows[i] == old(t.rows[i])
 //
@@ -74,7 +86,7 @@ package table
 // Separator and empty rows are complete rows.
 //@ func (*Table).AddSeparatorRow
 //@   modifies t.rows, t.rows[*], elems(t.rows[0].cells)
-//@   ensures len(t.rows) == old(len(t.rows)) + 1 && complete(t.rows[len(t.rows) - 1], t) && fresh(t.rows[len(t.rows) - 1]) && t.columns == old(t.columns)
+//@   ensures len(t.rows) == old(len(t.rows)) + 1 && complete(t.rows[len(t.rows) - 1], t) && fresh(t.rows[len(t.rows) - 1]) && live(t.rows[len(t.rows) - 1]) && t.columns == old(t.columns)
 //@   ensures forall i int :: {t.rows[i]} 0 <= i && i < old(len(t.rows)) ==> t.rows[i] == old(t.rows[i])
 //@   ensures forall k int :: {t.rows[len(t.rows) - 1].cells[k]} 0 <= k && k < len(t.columns) ==> typeIs(t.rows[len(t.rows) - 1].cells[k], "SeparatorCell")
 //@   loop 1 invariant 0 <= i && i == len(r.cells) && i <= len(t.columns) && rowOf(r, t) && fresh(r) && fresh(r.cells)
@@ -85,7 +97,7 @@ package table
 //
 //@ func (*Table).AddEmptyRow
 //@   modifies t.rows, t.rows[*], elems(t.rows[0].cells)
-//@   ensures len(t.rows) == old(len(t.rows)) + 1 && complete(t.rows[len(t.rows) - 1], t) && fresh(t.rows[len(t.rows) - 1]) && t.columns == old(t.columns)
+//@   ensures len(t.rows) == old(len(t.rows)) + 1 && complete(t.rows[len(t.rows) - 1], t) && fresh(t.rows[len(t.rows) - 1]) && live(t.rows[len(t.rows) - 1]) && t.columns == old(t.columns)
 //@   ensures forall i int :: {t.rows[i]} 0 <= i && i < old(len(t.rows)) ==> t.rows[i] == old(t.rows[i])
 //@   loop 1 invariant 0 <= i && i == len(r.cells) && i <= len(t.columns) && rowOf(r, t) && fresh(r) && fresh(r.cells)
 //@   loop 1 invariant len(t.rows) == old(len(t.rows)) + 1 && t.rows[len(t.rows) - 1] == r && t.columns == old(t.columns)
